@@ -536,7 +536,7 @@ func (f *frame) instr(ins ssa.Instruction, pc string, st *State) string {
 			fail("%s: make([]byte) is outside the subset", f.fn.Name())
 		}
 		h := g.elemHeapOf(et)
-		g.writeHeap(st, h, p, "((as const (Array Int "+g.sortOf(et)+")) "+g.zero(et).S+")")
+		g.writeHeap(st, h, p, g.s.zeroArr(g.sortOf(et), g.zero(et).S))
 		f.vals[i] = g.s.def(i.Name(), T{"(slc " + p + " 0 " + ln.S + " false)", "Slc"})
 	case *ssa.MakeMap:
 		mt := i.Type().Underlying().(*types.Map)
@@ -615,7 +615,7 @@ func (f *frame) doAlloc(i *ssa.Alloc, st *State, pc string) {
 		}
 	case *types.Array:
 		h := g.elemHeapOf(u.Elem())
-		g.writeHeap(st, h, ref, "((as const (Array Int "+g.sortOf(u.Elem())+")) "+g.zero(u.Elem()).S+")")
+		g.writeHeap(st, h, ref, g.s.zeroArr(g.sortOf(u.Elem()), g.zero(u.Elem()).S))
 	default:
 		h := g.boxHeapOf(et)
 		g.writeHeap(st, h, ref, g.zero(et).S)
@@ -809,6 +809,7 @@ func (f *frame) doIndexAddr(i *ssa.IndexAddr, st *State, pc string) {
 			fail("%s: element address of a []byte is outside the subset", f.fn.Name())
 		}
 		s := f.val(i.X)
+		g.instForalls(idx.S)
 		f.panicOb("index", pc, and("(<= 0 "+idx.S+")", "(< "+idx.S+" (len_ "+s.S+"))"), i.Pos(), "index out of range")
 		h := g.elemHeapOf(xt.Elem())
 		f.addrs[i] = addr{kind: "elem", heap: h, ref: "(ptr " + s.S + ")", idx: g.s.def("ix", T{"(+ (off " + s.S + ") " + idx.S + ")", "Int"}).S, ty: xt.Elem(), bty: xt.Elem()}
@@ -968,6 +969,7 @@ func (f *frame) doNext(i *ssa.Next, st *State, pc string) {
 	}
 	g.s.assumeUnder(pc, imp(not(ok.S), "(forall ((qk "+ks+")) (! (=> (select "+has+" qk) (select "+vis+" qk)) :pattern ((select "+vis+" qk))))"))
 	g.writeHeap(st, it.visited, "", ite(ok.S, "(store "+vis+" "+k.S+" true)", vis))
+	g.addInstTerm(ks, k.S)
 	kv := k
 	if g.sortOf(mt.Key()) == "NB" {
 		kv = T{"(mk false " + k.S + ")", "NB"}
